@@ -1,21 +1,29 @@
 """C19 An interrupted merge never leaves a replaced file half-written.
 
-Generated: small `vf.gen.fstrees.merge_case` worlds (2..8 image entries, collision rate 0.7 so that files, symlinks,
-fifos, hardlink members get *replaced*; refusal-type collisions left out) -- same machinery as C18. For each world
-the merge is first run to completion in a forked child under `vf.crash` (audit hook) to log every mutating event
-below the root; then the root is rebuilt and the merge re-run once per injection point:
+Generated: small `vf.gen.fstrees.merge_case` worlds (2..6/8 image entries, collision rate 0.7 so that files, symlinks,
+fifos, hardlink members get *replaced*; refusal-type collisions left out) -- same machinery as C18 -- plus four
+hand-written worlds (`FIXED`) that are enumerated on every run. For each world the merge is run once to log every
+mutating event below the root, then the root is rebuilt and the merge re-run once per injection point:
 
-    (k, before)   process dies right before event k        (k, eio)  event k fails with EIO, pkgcore's own error
-    (k, after)    dies right after an open(..., write)               handling runs to completion
-    (j, half-crash) / (j, half-eio)   the j-th Python-level write() to a file below the root stores only the first
-                  half of its buffer and then the process dies / the write raises EIO.
+    (k, before)   the process dies right before event k     (k, eio)  event k fails with EIO once, pkgcore's own
+    (k, after)    it dies right after an open-for-write               error handling runs to completion
+    (j, half-crash) / (j, half-eio)   the j-th write() to a file below the root stores only the first half of its
+                  buffer, then the process dies / the write raises EIO.
 
-Injector blind spots handled here: `write()` raises no audit event, so this module interposes `builtins.open` inside
-the child (snakeoil's data sources open through it) and wraps writable files below the root; `os.mkfifo`/`os.mknod`
-raise no audit event either but fs/ops.py calls them as `os.mkfifo(...)`, which `vf.crash` already routes through
-its hook; `os.lchown` reports as `os.chown`; `unlink_if_exists` as `os.remove`. The `cp -Rp` subprocess fallback of
-copyfile is unreachable for scanned trees (gen_obj maps every other type to fsDev -> mknod). Block-level torn
-writes are not modelled.
+Mechanism. `vf.crash` (fork + audit hook) is the reference event log, but a fork costs 25 ms .. seconds on this host
+(forks do not scale across processes here), so a per-point fork would allow only a few hundred points per quick run.
+The points are therefore injected *in process* by `Injector`: reversible interposition on the `os` attributes
+(rename/replace/remove/unlink/rmdir/mkdir/link/symlink/chmod/lchmod/chown/lchown/utime/truncate/mkfifo/mknod/open)
+and `builtins.open`, which is how fs/ops.py, snakeoil.osutils (ensure_dirs, unlink_if_exists) and
+snakeoil.data_source (transfer_to_path) reach the filesystem. Death is a BaseException (`Crash`) after which every
+further interposed call raises again and buffered data of open files is discarded (fd redirected to /dev/null), so
+`finally:` clauses cannot repair or flush anything. What the injector cannot see -- a function bound at import time
+(`from os import rename`), a subprocess, `os.f*` on descriptors -- is caught by `crosscheck()`: for the FIXED worlds
+and the first replaced world of two sampled tasks per run the injector's log must equal the `vf.crash.dry_run` audit
+log event by event (same vocabulary: lchown -> os.chown, unlink -> os.remove, mkfifo -> vf.mkfifo), else the run is
+a harness error (exit 2), not a pass. write() has no audit event; it is only visible through the `open` proxy.
+The `cp -Rp` subprocess fallback of copyfile is unreachable for scanned trees (gen_obj maps every other type to fsDev
+-> mknod); it would show up in the cross-check as a subprocess event. Block-level torn writes are not modelled.
 
 Oracle at every injection (lstat snapshots of the whole world before/after, `vf.fsx`):
  * a path that existed before and is the location of a non-directory entry holds either exactly its previous
@@ -25,13 +33,14 @@ Oracle at every injection (lstat snapshots of the whole world before/after, `vf.
    the recorded mode/owner;
  * everything else that existed (image, victims hardlinked to replaced files, bystanders) is unchanged, except
    pre-existing `<entry>#new` siblings and mtimes of directories that received entries;
- * new paths are only entry locations, their `#new` siblings, or missing parents.
+ * new paths are only entry locations, their `#new` siblings, or missing parents;
  * if a faulted merge nevertheless returns, the full C18 post-condition is applied.
+The state *after the last event* is C18's business; worlds therefore merge something after each replacement.
 """
 import errno
 import os
 
-from .. import core, crash, fsx
+from .. import core, crash
 from ..gen import fstrees as T
 from . import c18
 
@@ -43,13 +52,15 @@ DESIGN_REF = "DESIGN.md §3 C19"
 LEVEL_TEXT = (
     "For every generated (image, colliding root) world, ALL mutating filesystem events of merge_contents below the root "
     "(open-for-write, rename, unlink, mkdir, link, symlink, chmod, chown, utime, mkfifo) and all write() calls are "
-    "enumerated; the merge is re-executed in a forked child once per (event, mode) with the process killed or the "
-    "call failing with EIO there, and the surviving tree is compared with the old-or-new model."
+    "enumerated; the merge is re-executed once per (event, mode) with a simulated process death or an EIO failure "
+    "there, and the surviving tree is compared with the old-or-new model."
 )
 LEVEL_NOTE = (
-    "Crash = os._exit in the child at a Python-visible call boundary (user-space buffers lost). Not modelled: torn "
-    "blocks, reordering of metadata vs. data on power loss (no fsync model), faults inside a single syscall. "
-    "Worlds are sampled, their injection points are exhaustive."
+    "Crash = BaseException at a Python-visible call boundary with all later mutations suppressed and user-space "
+    "buffers discarded (in-process injector; completeness of its event log is cross-checked against the audit-hook "
+    "log of vf.crash on the fixed worlds and two sampled worlds per run). Not modelled: torn blocks, reordering of "
+    "metadata vs. data on power loss (no fsync model), faults inside a single syscall. Worlds are sampled, their "
+    "injection points are exhaustive."
 )
 RULE = (
     "evaluation = one (world, injection point, mode) run; non-trivial = the point lies inside a temporary-name window "
@@ -64,10 +75,6 @@ ASSUMPTIONS = [
 BUDGET = {"quick": 70, "thorough": 900}
 
 MODES = ("before", "after", "eio")
-
-
-def _types(e):
-    return e["type"] if e else None
 
 
 def _fields(t):
@@ -88,9 +95,11 @@ def check_interrupted(w, S0, S1, pre, pre_nodes, viol):
     names = {p for p, _ in ents}
     role = {}  # world-relative path -> (kind, p)
     touched = {rroot}
-    for p, rec in ents:
+    for p, rec in ents:  # entry locations first: they win over the temporary-sibling role of a neighbour
         for E in {pre_nodes[p], w.node(p)}:
             role.setdefault(E, ("dir-entry" if rec["type"] == "dir" else "entry", p))
+    for p, rec in ents:
+        for E in {pre_nodes[p], w.node(p)}:
             touched.add(os.path.dirname(E))
             if rec["type"] != "dir":
                 role.setdefault(E + "#new", ("tmp", p))
@@ -120,7 +129,7 @@ def check_interrupted(w, S0, S1, pre, pre_nodes, viol):
             else:
                 viol("frame:added:other", f"new path {q!r} is neither an entry, a '#new' sibling nor a missing parent")
             continue
-        if kind == "tmp" and p is not None and q not in {w.node(x) for x in names}:
+        if kind == "tmp":
             continue  # stale temporary sibling: free
         if kind == "entry":
             rec = SI[p]
@@ -171,26 +180,188 @@ def fsx_fields(e):
             "fifo": ("type", "mode", "uid", "gid", "mtime")}.get(e["type"], ("type", "mode", "uid", "gid"))
 
 
-# ---- write() interposition ------------------------------------------------------------------
+# ---- in-process fault injector ------------------------------------------------------------------
+class Crash(BaseException):
+    """simulated process death: not an Exception, so no `except Exception/OSError` of the code under test sees it"""
+
+
+_OS_EVENTS = {
+    # os attribute -> (event name as vf.crash logs it, indices of path arguments)
+    "rename": ("os.rename", (0, 1)), "replace": ("os.rename", (0, 1)), "remove": ("os.remove", (0,)),
+    "unlink": ("os.remove", (0,)), "rmdir": ("os.rmdir", (0,)), "mkdir": ("os.mkdir", (0,)), "link": ("os.link", (0, 1)),
+    "symlink": ("os.symlink", (1,)), "chmod": ("os.chmod", (0,)), "lchmod": ("os.chmod", (0,)), "chown": ("os.chown", (0,)),
+    "lchown": ("os.chown", (0,)), "utime": ("os.utime", (0,)), "truncate": ("os.truncate", (0,)),
+    "mkfifo": ("vf.mkfifo", (0,)), "mknod": ("vf.mknod", (0,)),
+}
+_WRITE_FLAGS = os.O_WRONLY | os.O_RDWR | os.O_CREAT | os.O_TRUNC | os.O_APPEND
+
+
+class Injector:
+    """Reversible interposition on the `os` module attributes and `builtins.open` (fs/ops.py, snakeoil.osutils and
+    snakeoil.data_source all call `os.<f>(...)` / `open(...)` at call time). Same event vocabulary and numbering as
+    `vf.crash`; `crosscheck()` compares the two logs so that a call path this injector cannot see is a harness error.
+
+        k, mode:  'before' -> Crash raised instead of performing event k; 'after' -> event k (an open) is performed,
+                  then Crash; 'eio' -> event k raises OSError(EIO) once
+        wk, wmode: the wk-th write() on a file opened for writing below the root stores half of its buffer, then
+                  'half-crash' -> Crash, 'half-eio' -> OSError(EIO)
+    After a Crash the injector is dead: every further interposed call raises Crash again without effect and the
+    user-space buffers of files still open are discarded (their descriptors are redirected to /dev/null), which is
+    what process death does."""
+
+    def __init__(self, root, k=None, mode=None, wk=None, wmode=None):
+        self.root = os.path.realpath(root)
+        self.k, self.mode, self.wk, self.wmode = k, mode, wk, wmode
+        self.n = self.wn = 0
+        self.events, self.writes = [], []
+        self.dead = False
+        self.live = []
+        self._saved = {}
+
+    # -- bookkeeping
+    def _abs(self, p):
+        try:
+            p = os.fspath(p)
+        except TypeError:
+            return None
+        if isinstance(p, bytes):
+            p = os.fsdecode(p)
+        if not os.path.isabs(p):
+            p = os.path.join(os.getcwd(), p)
+        return os.path.normpath(p)
+
+    def _rel(self, p):
+        if p is None:
+            return None
+        if p == self.root:
+            return "."
+        return p[len(self.root) + 1:] if p.startswith(self.root + "/") else p
+
+    def _under(self, p):
+        return p is not None and (p == self.root or p.startswith(self.root + "/"))
+
+    def die(self):
+        self.dead = True
+        for f in self.live:
+            try:
+                if not f.closed:
+                    nul = os.open(os.devnull, os.O_WRONLY)
+                    os.dup2(nul, f.fileno())
+                    os.close(nul)
+            except (OSError, ValueError):
+                pass
+        raise Crash()
+
+    def event(self, name, paths):
+        """returns True if the caller has to die right after performing the call"""
+        if self.dead:
+            raise Crash()
+        if not any(self._under(p) for p in paths):
+            return False
+        self.n += 1
+        rec = {"ev": name, "path": self._rel(paths[0]), "k": self.n}
+        if len(paths) > 1:
+            rec["path2"] = self._rel(paths[1])
+        self.events.append(rec)
+        if self.k == self.n:
+            if self.mode == "before":
+                self.die()
+            if self.mode == "eio":
+                raise OSError(errno.EIO, "injected I/O error (vf.props.c19)")
+            if self.mode == "after":
+                return True
+        return False
+
+    # -- interposition
+    def __enter__(self):
+        import builtins
+
+        inj = self
+        for attr, (evname, idx) in _OS_EVENTS.items():
+            real = getattr(os, attr, None)
+            if real is None:
+                continue
+            self._saved[attr] = real
+
+            def f(*a, _real=real, _ev=evname, _idx=idx, **kw):
+                ps = [inj._abs(a[i]) for i in _idx if i < len(a)]
+                if "dst" in kw and len(ps) < len(_idx):
+                    ps.append(inj._abs(kw["dst"]))
+                after = inj.event(_ev, ps) if ps else False
+                r = _real(*a, **kw)
+                if after:
+                    inj.die()
+                return r
+
+            setattr(os, attr, f)
+        real_osopen = self._saved["open"] = os.open
+
+        def osopen(path, flags, *a, **kw):
+            after = False
+            if flags & _WRITE_FLAGS and not isinstance(path, int):
+                after = inj.event("open", [inj._abs(path)])
+            fd = real_osopen(path, flags, *a, **kw)
+            if after:
+                inj.die()
+            return fd
+
+        os.open = osopen
+        real_open = self._saved["builtins.open"] = builtins.open
+
+        def opener(file, mode="r", *a, **kw):
+            writing = isinstance(mode, str) and any(c in mode for c in "wax+")
+            p = inj._abs(file) if writing and not isinstance(file, int) else None
+            after = False
+            if p is not None and inj._under(p):
+                after = inj.event("open", [p])
+            elif inj.dead:
+                raise Crash()
+            f = real_open(file, mode, *a, **kw)
+            if p is not None and inj._under(p):
+                inj.live.append(f)
+                f = _W(f, inj._rel(p), inj)
+            if after:
+                inj.die()
+            return f
+
+        builtins.open = opener
+        return self
+
+    def __exit__(self, *exc):
+        import builtins
+
+        builtins.open = self._saved.pop("builtins.open")
+        for attr, real in self._saved.items():
+            setattr(os, attr, real)
+        self._saved = {}
+        for f in self.live:
+            try:
+                f.close()
+            except (OSError, ValueError):
+                pass
+        self.live = []
+        return False
+
+
 class _W:
     """proxy for a writable file object below the root: counts write() calls, optionally faults one of them"""
 
-    def __init__(self, f, path, st):
+    def __init__(self, f, path, inj):
         object.__setattr__(self, "_f", f)
         object.__setattr__(self, "_path", path)
-        object.__setattr__(self, "_st", st)
+        object.__setattr__(self, "_inj", inj)
 
     def write(self, data):
-        st = self._st
-        st["n"] += 1
-        os.write(st["log"], (self._path.replace("\n", "\\n") + "\n").encode("utf8", "surrogateescape"))
-        if st["arm"] is not None and st["arm"][0] == st["n"]:
-            half = bytes(data)[: len(data) // 2]
-            self._f.write(half)
+        inj = self._inj
+        if inj.dead:
+            raise Crash()
+        inj.wn += 1
+        inj.writes.append(self._path)
+        if inj.wk == inj.wn:
+            self._f.write(bytes(data)[: len(data) // 2])
             self._f.flush()
-            if st["arm"][1] == "half-crash":
-                os._exit(crash.EXIT_CRASH)
-            st["arm"] = None
+            if inj.wmode == "half-crash":
+                inj.die()
             raise OSError(errno.EIO, "injected I/O error in write (vf.props.c19)")
         return self._f.write(data)
 
@@ -210,27 +381,54 @@ class _W:
         self._f.close()
 
 
-def with_write_faults(op, root, logpath, arm):
-    def run():
-        import builtins
+class Outcome:
+    def __init__(self, status, inj, exc=None):
+        self.status, self.events, self.writes, self.exc = status, inj.events, inj.writes, exc
 
-        real = builtins.open
-        st = {"n": 0, "arm": arm, "log": os.open(logpath, os.O_WRONLY | os.O_CREAT | os.O_TRUNC, 0o600)}
-        prefix = root + "/"
 
-        def opener(file, mode="r", *a, **kw):
-            f = real(file, mode, *a, **kw)
-            if isinstance(file, str) and file.startswith(prefix) and any(c in mode for c in "wa+x"):
-                return _W(f, file[len(prefix):], st)
-            return f
+def inproc(ctx, case, op, root, expected, k=None, mode=None, wk=None, wmode=None):
+    """run op under the injector. status: completed | crashed | raised | pkgcore-crash"""
+    inj = Injector(root, k, mode, wk, wmode)
+    status, exc = "completed", None
+    try:
+        with inj:
+            r = core.guarded(ctx, case, op, expected=expected + (Crash,))
+        if core.crashed(r):
+            status = "pkgcore-crash"
+    except Crash:
+        status = "crashed"
+    except expected as e:
+        status, exc = "raised", e
+    finally:
+        os.umask(0o022)  # snakeoil's ensure_dirs toggles the umask around its mkdirs
+    if inj.dead:
+        status = "crashed"
+    return Outcome(status, inj, exc)
 
-        builtins.open = opener
-        try:
-            return op()
-        finally:
-            builtins.open = real
 
-    return run
+def crosscheck(op, root, events):
+    """the audit-hook log of vf.crash (sees every C-level call, but needs a fork) must equal the injector's log"""
+    ref = crash.dry_run(op, [root])
+    if ref.status not in ("completed", "raised"):
+        raise core.HarnessError(f"vf.crash dry run: {ref!r}")
+    mine = [(e["ev"], e.get("path"), e.get("path2")) for e in events]
+    theirs = [(e["ev"], e.get("path"), e.get("path2")) for e in ref.events]
+    if mine != theirs:
+        i = next((j for j, (x, y) in enumerate(zip(mine, theirs)) if x != y), min(len(mine), len(theirs)))
+        raise core.HarnessError(
+            f"injector blind spot: audit log and interposition log differ at event {i + 1}: "
+            f"audit={theirs[i:i + 2]} interposed={mine[i:i + 2]} (a mutating call is not made through os.<f>/open)")
+
+
+def points_of(events, writes):
+    pts = []
+    for ev in events:
+        pts.append((ev["k"], "before"))
+        if ev["ev"] == "open":
+            pts.append((ev["k"], "after"))
+        pts.append((ev["k"], "eio"))
+    pts += [(j, m) for j in range(1, len(writes) + 1) for m in ("half-crash", "half-eio")]
+    return pts
 
 
 # ---- windows ----------------------------------------------------------------------------------
@@ -251,17 +449,16 @@ def tmp_windows(events):
     return out
 
 
-def run_world(ctx, case, only=None, record=True):
+def run_world(ctx, case, only=None, record=True, check_injector=False):
     """enumerate (or, with only=[k, mode], run one of) the injection points of one world. returns #violations"""
     _c, _l, ops = c18._imports()
+    expected = (ops.FailedCopy, OSError)
     base = c18.scratch_base(ctx)
     w = c18.World(base, case)
     nviol = 0
-    wlog = os.path.join(base, "writes.log")
     try:
         w.snapshot_image()
         op = w.merge_op()
-        replaced = None
 
         def rebuild():
             T.rm_tree(w.root)
@@ -273,47 +470,44 @@ def run_world(ctx, case, only=None, record=True):
         pre_nodes = {p: w.node(p) for p, _ in w.entries()}
         replaced = [p for p, rec in w.entries() if (rec["type"] != "dir" and pre[p][0] not in (None, "dir"))
                     or (rec["type"] == "dir" and pre[p] == ("sym", None))]
-        cl0, _nt = c18.classify(w, pre, refuse)
         cause = c18.root_cause(w, pre)
+        wcase = {"img": case["img"], "root": case["root"], "variant": case["variant"], "inject": None}
         if not replaced:
             if record:
-                ctx.case({"img": case["img"], "root": case["root"], "variant": case["variant"], "inject": None},
-                         nontrivial=False, classes=["world:nothing-replaced"])
+                ctx.case(wcase, nontrivial=False, classes=["world:nothing-replaced"])
             return 0
-        dry = crash.dry_run(with_write_faults(op, w.root, wlog, None), [w.root])
+        dry = inproc(ctx, wcase, op, w.root, expected)
         if dry.status not in ("completed", "raised"):
-            raise core.HarnessError(f"dry run {dry!r}")
-        if dry.status == "raised" and not refuse and cause is None:
-            # C18's business; still enumerate what happened up to the raise
+            return 0  # pkgcore crashed without any fault: recorded by guarded(), C18's business
+        if dry.status == "raised":
             ctx.count("dry_run_raised")
-        with open(wlog, "rb") as f:
-            wpaths = f.read().decode("utf8", "surrogateescape").splitlines()
+        if check_injector:
+            rebuild()
+            crosscheck(op, w.root, dry.events)
+            ctx.count("injector_crosschecked_worlds")
         windows = tmp_windows(dry.events)
-        points = [(k, m) for k, m in crash.points(dry.events, MODES)]
-        points += [(j, m) for j in range(1, len(wpaths) + 1) for m in ("half-crash", "half-eio")]
-        if only is not None:
-            points = [tuple(only)] if only[0] is not None else points
+        points = points_of(dry.events, dry.writes)
+        if only is not None and only[0] is not None:
+            points = [tuple(only)]
         ctx.count("worlds")
         ctx.count("events", len(dry.events))
+        ctx.count("writes", len(dry.writes))
         evmap = {ev["k"]: ev for ev in dry.events}
         for k, mode in points:
             if ctx.out_of_time():
                 break
             rebuild()
             S0 = w.snap()
-            if mode in MODES:
-                res = crash.inject(op, [w.root], k, mode)
-                ev = evmap.get(k, {"ev": "?"})
-                in_window = [how for (s, e, how) in windows if s <= k <= e and not (k == s and mode == "before")]
-                evname = ev["ev"]
-            else:
-                res = crash.dry_run(with_write_faults(op, w.root, wlog, (k, mode)), [w.root])
-                in_window = ["copy"] if k <= len(wpaths) and wpaths[k - 1].endswith("#new") else []
-                evname = "write"
-            if res.status == "died":
-                raise core.HarnessError(f"child died (timeout?) at {k},{mode}: {res!r}")
-            S1 = w.snap()
             icase = {"img": case["img"], "root": case["root"], "variant": case["variant"], "inject": [k, mode]}
+            if mode in MODES:
+                res = inproc(ctx, icase, op, w.root, expected, k=k, mode=mode)
+                evname = evmap.get(k, {"ev": "?"})["ev"]
+                in_window = [how for (s, e, how) in windows if s <= k <= e and not (k == s and mode == "before")]
+            else:
+                res = inproc(ctx, icase, op, w.root, expected, wk=k, wmode=mode)
+                evname = "write"
+                in_window = ["copy"] if k <= len(dry.writes) and dry.writes[k - 1].endswith("#new") else []
+            S1 = w.snap()
             viol = c18.Verdict(ctx, icase, cause, w.world)
             check_interrupted(w, S0, S1, pre, pre_nodes, viol)
             if res.status == "completed" and mode in ("eio", "half-eio"):
@@ -380,17 +574,26 @@ FIXED = [
 def plan(tier, seed):
     fixed = [{"task": "fixed", "index": i} for i in range(len(FIXED))]
     if tier == "quick":
-        return fixed + [{"task": "worlds", "examples": 5} for _ in range(14)]
-    return fixed + [{"task": "worlds", "examples": 150} for _ in range(16)]
+        return fixed + [{"task": "worlds", "examples": 25, "crosscheck": i < 2} for i in range(14)]
+    return fixed + [{"task": "worlds", "examples": 1200, "crosscheck": i < 2} for i in range(16)]
 
 
 def run_task(ctx, task, **kw):
     os.umask(0o022)
     try:
         if task == "fixed":
-            run_world(ctx, FIXED[kw["index"]])
+            run_world(ctx, FIXED[kw["index"]], check_injector=True)
         elif task == "worlds":
-            core.hyp_run(ctx, strategy(ctx.tier), lambda c: run_world(ctx, c), kw["examples"], chunk=5)
+            first = [bool(kw.get("crosscheck"))]
+
+            def one(c):
+                # the first world with a replacement of a `crosscheck` task is compared with the audit-hook log (1 fork)
+                n0 = ctx.counters["worlds"]
+                run_world(ctx, c, check_injector=first[0])
+                if ctx.counters["worlds"] > n0:
+                    first[0] = False
+
+            core.hyp_run(ctx, strategy(ctx.tier), one, kw["examples"], chunk=25)
         else:
             raise core.HarnessError(f"unknown task {task}")
     finally:
